@@ -722,18 +722,18 @@ def r_recmerge(ctx) -> RuleResult:
     return res
 
 
-# --------------------------------------------------------------------------- R-CARRY
+# --------------------------------------------------------------------------- R-EDGEDATA
 
 
-@rule("R-CARRY")
-def r_carry(ctx) -> RuleResult:
-    res = RuleResult("R-CARRY", "the graph canonicalize_molecule returns is the input relabelled; if it descends from a graph that was built anew inside the pipeline, that graph is given the bonds together with their data")
+@rule("R-EDGEDATA")
+def r_edgedata(ctx) -> RuleResult:
+    res = RuleResult("R-EDGEDATA", "the graph canonicalize_molecule returns is the input relabelled; if it descends from a graph that was built anew inside the pipeline, that graph is given the bonds together with their data")
     from .common import closure, entry
     from .flow import _run_canon
     I, r = _run_canon(ctx)
     can = entry(ctx, "canonicalize")
     if r.kind != "graph":
-        raise AnalysisError(f"R-CARRY: canonicalize_molecule does not return a graph in the T-domain ({r.kind})")
+        raise AnalysisError(f"R-EDGEDATA: canonicalize_molecule does not return a graph in the T-domain ({r.kind})")
     rebuilt_result = r.oid != "G0"
     res.inst(can.fq, "result descends from " + ("a graph built anew" if rebuilt_result else "the input graph (relabelled copies)"), "ok")
     if not rebuilt_result:
@@ -748,7 +748,7 @@ def r_carry(ctx) -> RuleResult:
                 if rr and rr[0] == "ext" and rr[1] == "networkx.Graph" and not n.value.args:
                     sites.append((f, n.targets[0].id, n))
     if len(sites) != 1:
-        raise AnalysisError(f"R-CARRY: the result of canonicalize_molecule descends from a rebuilt graph, and {len(sites)} graphs are built in its closure: cannot tell which")
+        raise AnalysisError(f"R-EDGEDATA: the result of canonicalize_molecule descends from a rebuilt graph, and {len(sites)} graphs are built in its closure: cannot tell which")
     f, g, site = sites[0]
     with_data = without = None
     for n in own_walk(f.node):
@@ -767,20 +767,20 @@ def r_carry(ctx) -> RuleResult:
                 else:
                     without = n
             elif n.func.attr in ("add_weighted_edges_from", "update"):
-                raise AnalysisError(f"R-CARRY: `{short(n, 50)}`: form not read")
+                raise AnalysisError(f"R-EDGEDATA: `{short(n, 50)}`: form not read")
     if with_data is None and without is None:
-        raise AnalysisError(f"R-CARRY: cannot see how the graph `{g}` built in {f.qualname} gets its bonds")
+        raise AnalysisError(f"R-EDGEDATA: cannot see how the graph `{g}` built in {f.qualname} gets its bonds")
     restored = [x for f2 in clo for x in own_walk(f2.node)
                 if (isinstance(x, ast.Call) and norm(x.func).endswith("set_edge_attributes"))
                 or (isinstance(x, ast.Subscript) and isinstance(x.value, ast.Attribute) and x.value.attr == "edges" and isinstance(x.ctx, ast.Store))
                 or (isinstance(x, ast.Call) and isinstance(x.func, ast.Attribute) and x.func.attr == "update" and isinstance(x.func.value, ast.Subscript)
                     and isinstance(x.func.value.value, ast.Attribute) and x.func.value.value.attr == "edges")]
     if without is not None and restored:
-        raise AnalysisError(f"R-CARRY: `{short(without, 50)}` adds the bonds without their data and `{short(restored[0], 50)}` writes bond data later; whether that restores all of it is beyond this analysis")
+        raise AnalysisError(f"R-EDGEDATA: `{short(without, 50)}` adds the bonds without their data and `{short(restored[0], 50)}` writes bond data later; whether that restores all of it is beyond this analysis")
     ok = without is None
     res.inst(f.fq, f"`{short(with_data or without, 60)}` carries the bond data", "ok" if ok else "fail")
     if not ok:
-        res.fail(Finding("R-CARRY", f.module.rel, f.qualname, norm(without),
+        res.fail(Finding("R-EDGEDATA", f.module.rel, f.qualname, norm(without),
                          "the graph that canonicalize_molecule returns descends from this rebuilt graph, whose bonds are added without their data, and nothing writes bond data later: "
                          "every bond of the canonical graph has lost its attributes (bond type)", line=without.lineno))
     res.counts = {"rebuilt": 1}
